@@ -3,7 +3,7 @@ import YaegiVerif.Model.Boundary
 import YaegiVerif.Generated.C07
 /- Line-protocol front end for C07 (glue, not a proof obligation).
 
-   call (recv HASRECV RECVISIFACE RECVINSIG) ISVARIADIC ELLIPSIS DEFERRED (params "T0" … ) (velem "T")
+   call (recv HASRECV RECVISIFACE RECVINSIG METHODVALUE) ISVARIADIC ELLIPSIS DEFERRED (params "T0" … ) (velem "T")
         (args (SIT FORM PKIND) …) (ctx KIND …) NOUT
       → y=<ok|bad:reason> reps=<c0,c1,…> off=<n> g=<ok|bad:reason>
       y is the model of the unchanged mechanism run with the facts regenerated from the source, g the contract.
@@ -237,12 +237,12 @@ def handleIfaceRecv : String :=
     "y=bad:receiver-follows-variable g=ok"
   else "y=ok g=ok"
 
-def handleCall (hasRecv recvIsIface recvInSig isVariadic ellipsis deferred : Bool) (params : List String) (velem : String)
+def handleCall (hasRecv recvIsIface recvInSig methodValue isVariadic ellipsis deferred : Bool) (params : List String) (velem : String)
     (args : List ArgIn) (ctx : Ctx) (nOut : Nat) : String :=
   let nParams := params.length
   let numIn := nParams + (if recvInSig then 1 else 0)
   let nArgs := args.length
-  let off := rcvrOffsetY G hasRecv recvIsIface isVariadic numIn nArgs
+  let off := rcvrOffsetY G hasRecv recvIsIface methodValue isVariadic numIn nArgs
   let trueOff := if recvInSig then 1 else 0
   -- constants are converted to the type callBin picks for their position
   let conv := (List.range nArgs).zip args |>.map fun (i, a) =>
@@ -302,11 +302,13 @@ instance : BEq Ctx := ⟨fun a b => decide (a = b)⟩
 
 def handle (args : List Sexp) : String :=
   match args with
-  | [.atom "call", .list [.atom "recv", hr, ri, rs], iv, el, df, .list (.atom "params" :: ps), .list [.atom "velem", .atom ve],
+  | [.atom "call", .list [.atom "recv", hr, ri, rs, mv], iv, el, df, .list (.atom "params" :: ps), .list [.atom "velem", .atom ve],
      .list (.atom "args" :: as), ctx, nout] =>
-    (match hr.bool?, ri.bool?, rs.bool?, iv.bool?, el.bool?, df.bool?, ps.mapM Sexp.atom?, as.mapM parseArg, parseCtx ctx, nout.nat? with
-     | some hr, some ri, some rs, some iv, some el, some df, some ps, some as, some c, some n =>
-       handleCall hr ri rs iv el df ps ve as c n
+    (match hr.bool?, ri.bool?, rs.bool?, mv.bool?, iv.bool?, el.bool?, df.bool?, ps.mapM Sexp.atom?, as.mapM parseArg, parseCtx ctx with
+     | some hr, some ri, some rs, some mv, some iv, some el, some df, some ps, some as, some c =>
+       (match nout.nat? with
+        | some n => handleCall hr ri rs mv iv el df ps ve as c n
+        | none => "bad-op")
      | _, _, _, _, _, _, _, _, _, _ => "bad-op")
   | [.atom "pack", .atom path, iv, el, df, nf, na] =>
     (match iv.bool?, el.bool?, df.bool?, nf.nat?, na.nat? with
